@@ -5,6 +5,8 @@
 //	rsaski.pem     an RSA key whose certificate carries a SubjectKeyIdentifier (as openssl-made certificates do)
 //	rsaskimal.pem  Mallory's RSA key under a self-signed certificate that copies rsaski's subject and SubjectKeyIdentifier
 //	rsa4096.pem    a 4096-bit RSA key (signed requests carrying its certificate and signature exceed 4 KiB)
+//	rsa1sig.pem    rsa1's key under a certificate whose keyUsage is digitalSignature only
+//	rsa1ca.pem     rsa1's key under a self-signed certificate with basicConstraints CA:TRUE (what openssl req -x509 makes)
 //
 // usage: go run ./cmd/mkfixture <fixtures dir> [only-missing]
 package main
@@ -40,6 +42,23 @@ func write(dir, name string, key *rsa.PrivateKey, tmpl *x509.Certificate) {
 
 func main() {
 	dir := os.Args[1]
+	if len(os.Args) > 2 && os.Args[2] == "rsa1-variants" {
+		b, err := os.ReadFile(filepath.Join(dir, "rsa1.pem"))
+		if err != nil {
+			panic(err)
+		}
+		kb, _ := pem.Decode(b)
+		k, err := x509.ParsePKCS8PrivateKey(kb.Bytes)
+		if err != nil {
+			panic(err)
+		}
+		nb, na := time.Date(1990, 1, 1, 0, 0, 0, 0, time.UTC), time.Date(2200, 1, 1, 0, 0, 0, 0, time.UTC)
+		write(dir, "rsa1sig", k.(*rsa.PrivateKey), &x509.Certificate{SerialNumber: big.NewInt(105), Subject: pkix.Name{CommonName: "rsa1"}, NotBefore: nb, NotAfter: na,
+			KeyUsage: x509.KeyUsageDigitalSignature | x509.KeyUsageContentCommitment, BasicConstraintsValid: true})
+		write(dir, "rsa1ca", k.(*rsa.PrivateKey), &x509.Certificate{SerialNumber: big.NewInt(106), Subject: pkix.Name{CommonName: "rsa1"}, NotBefore: nb, NotAfter: na,
+			KeyUsage: x509.KeyUsageDigitalSignature | x509.KeyUsageKeyEncipherment | x509.KeyUsageCertSign, BasicConstraintsValid: true, IsCA: true})
+		return
+	}
 	if len(os.Args) > 2 { // later additions only: the files of the first call stay as committed
 		k, err := rsa.GenerateKey(rand.Reader, 4096)
 		if err != nil {
